@@ -1,5 +1,6 @@
 import Driver.Util
 import NutsModel.C09.Ambassador
+import NutsModel.C09.Entry
 import NutsModel.Facts.C09
 import NutsModel.Facts.C10
 open Lean Nuts.Drv Nuts.C10 Nuts.C09 Nuts
@@ -54,6 +55,10 @@ def cfgFor (emb : Option Key) (embDid : String) : Nuts.C09.Cfg :=
     vmNilJwkErr := Nuts.Facts.C09.verifyThumbprintGuardsNilJwk
     findKeyNilJwkErr := Nuts.Facts.C09.findKeyGuardsNilJwk
     store := cfgOf (fun _ l => l) Nuts.Facts.C10.mergeSortedFields }
+
+/-- the entry configuration as the source has it today (regenerated constants) -/
+def entryCfg : EntryCfg :=
+  { payloadEventType := Nuts.Facts.C09.payloadEventType, didDocumentType := Nuts.Facts.C09.didDocumentType }
 
 structure St where
   store : Store := {}
@@ -135,8 +140,32 @@ def step (st : St) (j : Json) : St × List String :=
     let pd : Option NDoc := if (jObj j "doc").isNull then none else some (parseDoc (jObj j "doc"))
     let c := cfgFor tx.embedded embDid
     let cbOnly := if jHas j "cb" then jBool j "cb" else !st.verify
-    let r := if cbOnly then callback c st.store tx pd else deliver c st.store tx pd
     let hdr := s!"pair {jInt j "h"}.{jNat j "i"}"
+    if jHas j "ev" then
+      -- entry layer: the event goes through the subscription `ambassador.Start` makes (selection filter, then
+      -- handleNetworkEvent), possibly against a DID store whose Add fails
+      let evj := jObj j "ev"
+      let ev : DagEvent := { evType := jStr evj "type", payloadType := jStr evj "ptype", tx := tx, payload := pd }
+      let f : Option AddFault := match jStr evj "fault" with
+        | "db" => some { name := "db", isDb := true }
+        | "other" => some { name := "other", isDb := false }
+        | _ => none
+      let (s', ack) := notify entryCfg Nuts.Facts.C09.networkEventFatalUnlessDatabaseError c st.store ev f
+      -- filtered or not, the transaction is on the DAG: a later REPROCESS hands it to `callback`
+      let st := { st with seen := st.seen ++ [(jNat j "i", tx, pd, embDid)] }
+      match ack with
+      | none => (st, [s!"{hdr} filtered [db-same] ="])
+      | some .finished =>
+        let dup := match pd with
+          | some d => contains (st.store.get d.id).events (eventOf tx d)
+          | none => false
+        let st' := { st with store := s' }
+        let o := observe st'
+        let shown := if o == st.lastObs then "=" else o
+        ({ st' with lastObs := o }, [s!"{hdr} ok [{if dup then "db-same" else "db-changed"}] {shown}"])
+      | some a => (st, [s!"{hdr} {a.render} [db-same] ="])
+    else
+    let r := if cbOnly then callback c st.store tx pd else deliver c st.store tx pd
     let st := { st with seen := st.seen ++ [(jNat j "i", tx, pd, embDid)] }
     match r with
     | .ok s' =>
